@@ -15,17 +15,20 @@ Definition item_texts (its : list item) : bytes := concat (map item_text its).
 Lemma flushT_in t cur l : In t (flushT cur l) -> t = TText cur \/ In t l.
 Proof. unfold flushT. destruct cur; cbn; intuition auto. Qed.
 
-Lemma coalesce_in : forall its cur t, In t (coalesce its cur) -> (exists d, t = TText d) \/ In (ITag t) its.
+Lemma coalesce_in : forall its cur t, In t (coalesce its cur) ->
+  (exists d, t = TText d) \/ In (ITag t) its \/ (exists d, t = TComment (comment_reread d) /\ In (IComment d) its).
 Proof.
   induction its as [|it its IH]; intros cur t Hin; cbn [coalesce] in Hin.
   - apply flushT_in in Hin as [->|[]]. left; eauto.
-  - destruct it as [|t0|d|d|d].
-    + destruct (IH _ _ Hin) as [H|H]; [left; exact H | right; right; exact H].
-    + apply flushT_in in Hin as [->|Hin]; [left; eauto|]. destruct Hin as [<-|Hin]; [right; left; reflexivity|].
-      destruct (IH _ _ Hin) as [H|H]; [left; exact H | right; right; exact H].
-    + destruct (IH _ _ Hin) as [H|H]; [left; exact H | right; right; exact H].
-    + destruct (IH _ _ Hin) as [H|H]; [left; exact H | right; right; exact H].
-    + destruct (IH _ _ Hin) as [H|H]; [left; exact H | right; right; exact H].
+  - assert (Hrec : forall cur', In t (coalesce its cur') ->
+              (exists d, t = TText d) \/ In (ITag t) (it :: its) \/ (exists d, t = TComment (comment_reread d) /\ In (IComment d) (it :: its))).
+    { intros cur' H. destruct (IH _ _ H) as [H1|[H1|(d & H1 & H2)]]; [left; exact H1 | right; left; right; exact H1 | right; right; exists d; split; [exact H1 | right; exact H2]]. }
+    destruct it as [|t0|d|d|d].
+    + apply Hrec in Hin. exact Hin.
+    + apply flushT_in in Hin as [->|Hin]; [left; eauto|]. destruct Hin as [<-|Hin]; [right; left; left; reflexivity | apply Hrec in Hin; exact Hin].
+    + apply Hrec in Hin. exact Hin.
+    + apply Hrec in Hin. exact Hin.
+    + apply flushT_in in Hin as [->|Hin]; [left; eauto|]. destruct Hin as [<-|Hin]; [right; right; exists d; split; [reflexivity | left; reflexivity] | apply Hrec in Hin; exact Hin].
 Qed.
 
 Lemma text_of_flushT cur l : text_of (flushT cur l) = cur ++ text_of l.
@@ -40,7 +43,7 @@ Proof.
     + rewrite text_of_flushT. unfold text_of at 1. cbn [map concat]. fold (text_of (coalesce its [])). rewrite IH. reflexivity.
     + rewrite IH. rewrite <- app_assoc. reflexivity.
     + rewrite IH. reflexivity.
-    + rewrite IH. reflexivity.
+    + rewrite text_of_flushT. unfold text_of at 1. cbn [map concat tok_text app]. fold (text_of (coalesce its [])). rewrite IH. reflexivity.
 Qed.
 
 Section TokenLevel.
@@ -50,7 +53,7 @@ Section TokenLevel.
   Hypothesis Hplain : plain_policy I p.
 
   Lemma plain_safe : allowUnsafe p = false.
-  Proof. exact (proj1 (proj2 Hplain)). Qed.
+  Proof. exact (proj1 Hplain). Qed.
 
   (* every token of the output comes from an emitted tag item, or is text *)
   Theorem output_token_provenance s t : In t (tokenize (sanitize_bytes I p s)) ->
@@ -65,11 +68,14 @@ Section TokenLevel.
         exists a aps, In (TSelf n a) (tokenize s) /\ element_policies I p n = Some aps /\
                       a' = clean_attrs I p n a aps /\ (a' = [] -> allow_no_attrs I p n = true)
     | TEnd n => In (TEnd n) (tokenize s) /\ elem_allowed I p n = true /\ is_script_or_style n = false
-    | TComment _ | TDoctype _ => False
+    | TComment d' => allowComments p = true /\ exists d, d' = comment_reread d /\ In (TComment d) (tokenize s)
+    | TDoctype _ => False
     end.
   Proof.
     intros Hin. rewrite (retokenize_sanitize I p Hplain) in Hin.
-    apply coalesce_in in Hin as [[d ->]|Hin]; [exact Logic.I|].
+    apply coalesce_in in Hin as [[d ->]|[Hin|(d & -> & Hin)]]; [exact Logic.I| |].
+    2:{ destruct (emitted_justified I p plain_safe _ _ Hin) as (st & t0 & Ht0 & Hj). cbn [justified] in Hj.
+        destruct Hj as (-> & Hc & _). split; [exact Hc|]. exists d. split; [reflexivity | exact Ht0]. }
     destruct (emitted_justified I p plain_safe _ _ Hin) as (st & t0 & Ht0 & Hj).
     destruct t as [d|n a|n|n a|d|d]; cbn [justified] in Hj; try contradiction; auto.
     - destruct Hj as (_ & Hs & a0 & aps & -> & Hp & Ha & Hb). split; [|split; [exact Hs|]].
@@ -140,7 +146,7 @@ Section TokenLevel.
   Lemma step_calm st t st' out : calm st -> clean_tok t = true -> step I p st t = Ok st' out ->
     calm st' /\ item_texts out = contribution t out.
   Proof.
-    destruct Hplain as (Hc & Hu & _).
+    destruct Hplain as (Hu & _).
     intros [Hs Hr] Hcl H. destruct t as [d|n a|n|n a|d|d]; cbn [step] in H; cbn [clean_tok] in Hcl.
     - unfold recent_is_raw in Hr. rewrite Hs, Hr in H. inversion H; subst. split; [split; auto|]. cbn. apply app_nil_r.
     - apply andb_true_iff in Hcl as [Hn Hm]. apply negb_true_iff in Hn, Hm. rewrite Hn, Hm in H. cbn [andb] in H.
@@ -183,7 +189,7 @@ Section TokenLevel.
       + destruct (negb (allow_no_attrs I p n)); inversion H; subst; (split; [exact Hst|]); [|reflexivity].
         apply tag_out_texts; [exact Logic.I | right; reflexivity].
       + inversion H; subst. split; [exact Hst | reflexivity].
-    - rewrite Hc in H. cbn in H. inversion H; subst. split; [split; auto | reflexivity].
+    - destruct (allowComments p && negb (skip st)); inversion H; subst; (split; [split; auto | reflexivity]).
     - inversion H; subst. split; [split; auto | reflexivity].
   Qed.
 
